@@ -1019,7 +1019,8 @@ func (w *configWorker) next(d time.Duration) (string, bool) {
 func (w *configWorker) overflowed() bool {
 	b, _ := os.ReadFile(w.errPath)
 	s := string(b)
-	return strings.Contains(s, "stack overflow") || strings.Contains(s, "goroutine stack exceeds")
+	return strings.Contains(s, "stack overflow") || strings.Contains(s, "goroutine stack exceeds") ||
+		strings.Contains(s, "all goroutines are asleep")
 }
 
 // configRunAccepted fills Inst/Curves/Ctrl/Fans of obs from the worker's replies.
@@ -1044,16 +1045,15 @@ func configRunAccepted(ctx *Ctx, path string, nc, nf int, obs *configObs) {
 				configTheWorker = nil
 				code := 1
 				if l == "stalled" || w.overflowed() {
-					code = 2
+					code = 2 // endless recursion, or blocked for good (runtime: "all goroutines are asleep - deadlock!")
 				}
+				obs.WorkerDied = true
 				if started >= 0 {
 					res[started] = code
-					from = started + 1
-					if code == 2 {
-						// an endless recursion / stall: the case is a failing input already; the remaining
-						// targets are not run (each could cost another watchdog period)
-						from = nc + nf
-					}
+					// the worker process died or stalled (stack overflow, deadlock, fatal error, os.Exit):
+					// the case is a failing input already; the remaining targets are not run (each could
+					// cost another watchdog period or worker start)
+					from = nc + nf
 				} else {
 					// died outside any target (instantiation / controller construction)
 					obs.WorkerDied = true
@@ -1606,7 +1606,8 @@ func configTagsFor(in configIn, obs configObs, gen string) []string {
 
 func init() {
 	drivers["config"] = func(ctx *Ctx) {
-		// every endless recursion costs several child processes; after 5 such cases the
+		// every death / stall of the worker process (endless recursion, deadlock, fatal error) costs a
+		// watchdog period or a worker start; after 5 such cases the
 		// verdict is settled (each is a failing input) and generation stops
 		hangs := 0
 		ncases := 0
@@ -1618,11 +1619,8 @@ func init() {
 			sampled := gen == "corpus" || ncases%40 == 0
 			ncases++
 			obs, coq := configRunConfig(ctx, in, sampled)
-			for _, v := range append(append([]int{}, obs.Curves...), obs.Fans...) {
-				if v == 2 {
-					hangs++
-					break
-				}
+			if obs.WorkerDied {
+				hangs++
 			}
 			nontrivial := len(in.Curves) >= 1 && (len(in.Fans) >= 1 || len(in.Sensors) >= 1)
 			ctx.Emit(Record{In: in, Obs: obs, Coq: coq, Tags: append(configTagsFor(in, obs, gen), extra...), NonTrv: nontrivial})
